@@ -71,6 +71,39 @@ def logging_setup_rule(ctx, rule: str) -> None:
                       loc=fn.loc(c), witness={"command": "bumpver init"})
 
 
+def ini_grammar_rule(ctx, rule: str) -> None:
+    """config._ConfigParser accepts what configparser accepts by default: `delimiters` still contains '=' and ':', `comment_prefixes`
+    '#' and ';' - wherever the reader is configured (construction in _parse_cfg, or a super().__init__ call of the class)."""
+    prog = ctx.prog
+    cp = prog.klass("config._ConfigParser")
+    sites: T.List[T.Tuple[ast.Call, str]] = []
+    pf = prog.function("config._parse_cfg")
+    ctx.visit(pf.fq)
+    for c in ast.walk(pf.node):
+        if isinstance(c, ast.Call) and unparse(c.func) in ("_ConfigParser", "configparser.RawConfigParser", "configparser.ConfigParser"):
+            sites.append((c, pf.loc(c)))
+    ctx.floor(rule, "INI reader constructions in _parse_cfg", len(sites), 1)
+    init = cp.methods.get("__init__")
+    if init is not None:
+        for c in ast.walk(init.node):
+            if isinstance(c, ast.Call) and unparse(c.func).endswith("__init__"):
+                sites.append((c, init.loc(c)))
+    want = {"delimiters": {"=", ":"}, "comment_prefixes": {"#", ";"}}
+    for c, loc in sites:
+        for kw in c.keywords:
+            if kw.arg not in want:
+                continue
+            try:
+                val = prog.fold(pf.module, kw.value)
+            except Exception:
+                val = None
+            ok = val is not None and not isinstance(val, str) and want[kw.arg] <= set(val)
+            ctx.check(rule, ok, f"INI reader: {kw.arg} keeps {sorted(want[kw.arg])}", f"config._ConfigParser: the INI grammar is narrowed ({kw.arg})",
+                      f"`{unparse(c)[:80]}`: an existing setup.cfg whose unrelated sections use the other spelling (`key: value`, `; comment`) raises a parsing error, "
+                      f"so `init` / `show` fail in that project directory", loc=loc, witness={"setup.cfg": "[metadata]\nname: demo\n"})
+    ctx.ok(rule, f"INI reader grammar examined at {len(sites)} configuration site(s)")
+
+
 def run(ctx) -> None:
     prog, cfgs, effects = ctx.prog, ctx.cfgs, ctx.effects
     ctx.rule("R1", "append-only write, only under (no config and not dry); dry exits 0 without writing; existing config exits 1")
@@ -85,6 +118,9 @@ def run(ctx) -> None:
     # ... and `show` reports what init wrote: a repository further up the directory tree is not this project's VCS (C11's marker rule)
     from checks.c11 import vcs_marker_rule
     vcs_marker_rule(ctx, "R5")
+    # ... and an existing setup.cfg with unrelated content in either key/value style (`key = value`, `key: value`) and either comment style is read
+    # without an error: the INI reader keeps configparser's grammar (no narrower delimiters / comment prefixes)
+    ini_grammar_rule(ctx, "R5")
     ctx.rule("R7", "every command gets past its first step: logging.basicConfig receives a logging level as level= and a text as format=")
     logging_setup_rule(ctx, "R7")
     # "in any project directory": looking through the candidate files must not fail on a file that is not UTF-8 (a Latin-1 setup.cfg
